@@ -23,6 +23,7 @@ import (
 	"os"
 	"path/filepath"
 	"sort"
+	"strconv"
 	"strings"
 )
 
@@ -119,12 +120,12 @@ func (e ev) String() string {
 }
 
 type interp struct {
-	p       *pkgSrc
-	states  []string
-	cancels map[string]bool // names bound to a cancel function
-	ctxs    map[string]bool // names bound to the cancellable context
-	locals  map[string]ast.Expr
-	depth   int
+	p          *pkgSrc
+	states     []string
+	cancels    map[string]bool // names bound to a cancel function
+	ctxs       map[string]bool // names bound to the cancellable context
+	locals     map[string]ast.Expr
+	depth      int
 	searchObjs map[string]bool // locals aliasing the game's search object
 	bestLines  map[string]bool // locals holding a ready-made bestmove line
 }
@@ -1069,7 +1070,56 @@ func uciFacts() ([]string, []bool, string) {
 		}
 	}
 	add("searchInstallsDerivedCtx", installs)
+	// output lines are single writes: no print statement of the UCI handlers or of the search emits a definite line fragment (a `fmt.Printf`
+	// whose format literal, or a `fmt.Print` whose last literal argument, does not end in a newline).  The model treats a line as one atomic
+	// write; a line assembled from two writes outside the lock can be cut in two by a concurrent `readyok` or `info`.
+	partial := partialLineWrites(fset, []string{"pkg/uci", "pkg/uci/game", "pkg/search"})
+	for _, w := range partial {
+		src.WriteString("partial-line write: " + w + "\n")
+	}
+	add("outputLinesAreSingleWrites", len(partial) == 0)
 	return names, vals, src.String()
+}
+
+// partialLineWrites lists the print calls that definitely emit a line fragment
+func partialLineWrites(fset *token.FileSet, rels []string) []string {
+	var out []string
+	for _, rel := range rels {
+		files, _ := filepath.Glob(filepath.Join(repoRoot(), rel, "*.go"))
+		sort.Strings(files)
+		for _, f := range files {
+			if strings.HasSuffix(f, "_test.go") || strings.HasSuffix(f, "_verif.go") {
+				continue
+			}
+			af, err := parser.ParseFile(fset, f, nil, 0)
+			if err != nil {
+				continue
+			}
+			ast.Inspect(af, func(n ast.Node) bool {
+				c, ok := n.(*ast.CallExpr)
+				if !ok || len(c.Args) == 0 {
+					return true
+				}
+				fn := nodeStr(fset, c.Fun)
+				var lit ast.Expr
+				switch fn {
+				case "fmt.Printf":
+					lit = c.Args[0]
+				case "fmt.Print":
+					lit = c.Args[len(c.Args)-1]
+				default:
+					return true
+				}
+				if bl, ok := lit.(*ast.BasicLit); ok && bl.Kind == token.STRING {
+					if v, err := strconv.Unquote(bl.Value); err == nil && !strings.HasSuffix(v, "\n") {
+						out = append(out, fmt.Sprintf("%s %s", fset.Position(c.Pos()), fn))
+					}
+				}
+				return true
+			})
+		}
+	}
+	return out
 }
 
 func dumpFacts(dir string) {
